@@ -21,7 +21,7 @@ BOUNDS = {
     "quick": "ab/explicit with ALL subsets fixed; abc/explicit and at/explicit with <=1 fixed; assume-edge states from abc/explicit; diamonds with <=1 fixed",
     "thorough": "abc/explicit, at/explicit with <=2 fixed; abt, abc/generated (leaves only), d3/abc, diamonds <=2; assume-edges from abt",
 }
-QUICK = [("ab/explicit", 9, "fix"), ("abc/explicit", 1, "fix"), ("at/explicit", 1, "fix"), ("diamond/explicit", 1, "fix"), ("abc/explicit", 1, "assume"), ("mix3/abt/explicit", 1, "fix")]
+QUICK = [("ab/explicit", 9, "fix"), ("abc/explicit", 1, "fix"), ("at/explicit", 1, "fix"), ("diamond/explicit", 1, "fix"), ("abc/explicit", 1, "assume"), ("mix3/abt/explicit", 1, "fix"), ("wide/1", 1, "assume")]
 THOROUGH = [("ab/explicit", 9, "fix"), ("abc/explicit", 2, "fix"), ("at/explicit", 2, "fix"), ("diamond/explicit", 2, "fix"),
             ("abt/explicit", 1, "fix"), ("abc/generated", 1, "fix"), ("d3/abc/explicit", 1, "fix"), ("abc/explicit", 1, "assume"),
             ("abt/explicit", 1, "assume"), ("diamond/explicit", 1, "assume")]
@@ -87,7 +87,7 @@ def check_assume(m, acc, fam, k, only=None):
     comps = compounds_of(m)
     idx = -1
     for i, (lo, hi) in leaves.items():
-        for c in range(lo, hi + 1):
+        for c in ref.domain(lo, hi, 4):
             idx += 1
             if only is None or idx == only:
                 check_state(m, ("L", i, c), acc, {"fam": fam, "k": k, "ast": m, "F": 1, "mode": "assume", "variant": idx}, 1)
@@ -153,7 +153,7 @@ def check_state(v, assumption, acc, case, nfix):
                                    "reduce": repr(key1), "reduce_reduce": repr(structure(red2))})
         return
     removed = is_var(red) or len(walk(red)) < len(walk(unreduced) if not is_var(unreduced) else [unreduced])
-    for rho in ref.assignments(free):
+    for rho in ref.assignments_dom(free, 4):
         alpha = {i: bd[0] for i, bd in leaves.items() if bd[0] == bd[1]}
         alpha.update(rho)
         want = ref.truth(v, alpha, overrides)
